@@ -1944,6 +1944,12 @@ func (ls *LState) GPCall(fn LGFunction, data LValue) error {
 }
 
 func (ls *LState) CallByParam(cp P, args ...LValue) error {
+	if cp.Protect && !ls.reg.ensure(ls.reg.Top()+1+len(args)) {
+		// the function and its arguments are pushed before PCall's protection
+		// begins: an argument list that does not fit is reported like any
+		// other error of a protected call, not raised in the caller
+		return newApiErrorS(ApiErrorRun, "registry overflow")
+	}
 	ls.Push(cp.Fn)
 	for _, arg := range args {
 		ls.Push(arg)
